@@ -265,6 +265,7 @@ func TestVerif_C18(t *testing.T) {
 			g.HeadAnywhere = true
 			g.MaxRepos = 6
 			g.Tombstones = ci%3 == 0
+			g.ZeroIDs = ci%4 == 1 // repositories without a numeric id
 		}})
 		if err != nil {
 			rec.Violation("harness/build", err.Error(), nil)
@@ -401,8 +402,8 @@ func c18List(rec *kit.Rec, w *world, qg *kit.QGen) {
 	}
 	for _, q := range qs {
 		type agg struct {
-			shards, docs        int
-			index, content      int64
+			shards, docs         int
+			index, content       int64
 			nl, defaultNL, other uint64
 		}
 		want := map[string]*agg{}
@@ -481,17 +482,32 @@ func TestVerif_C23(t *testing.T) {
 	noTenant := context.Background()
 	system := systemtenant.WithUnsafeContext(context.Background())
 	for ci := 0; ci < nCorp; ci++ {
-		w, err := newWorld(rec, uint64(ci)+23_000_000, worldOpt{tenants: nTenants, configure: func(g *kit.Gen) { g.MaxRepos = 6 }})
+		w, err := newWorld(rec, uint64(ci)+23_000_000, worldOpt{tenants: nTenants, configure: func(g *kit.Gen) { g.MaxRepos = 6; g.SameNames = true }})
 		if err != nil {
 			rec.Violation("harness/build", err.Error(), nil)
 			continue
 		}
+		// ownership: by repository id (ids are unique, names are not: two tenants may own
+		// repositories of one name); a name (keys of RepoURLs / LineFragments, sub-repository
+		// names) is visible to every tenant that owns a repository of that name
 		owner := map[string]int{}
+		own := c23Owners{byID: map[uint32]int{}, byName: map[string]map[int]bool{}}
+		sameName := false
 		for _, r := range w.c.Repos {
-			owner[r.Name] = r.TenantID
-			for _, sub := range r.SubRepos {
-				owner[sub] = r.TenantID
+			if _, dup := owner[r.Name]; dup {
+				sameName = true
 			}
+			owner[r.Name] = r.TenantID
+			own.byID[r.ID] = r.TenantID
+			for _, n := range append([]string{r.Name}, c23SubNames(r)...) {
+				if own.byName[n] == nil {
+					own.byName[n] = map[int]bool{}
+				}
+				own.byName[n][r.TenantID] = true
+			}
+		}
+		if sameName {
+			rec.Count("worlds_with_one_name_owned_by_two_tenants", 1)
 		}
 		qg := kit.NewQGen(w.g, w.c, w.ev)
 		qg.AllowRepo = true
@@ -512,14 +528,7 @@ func TestVerif_C23(t *testing.T) {
 				default:
 					ctx = ctxs[tid]
 				}
-				allowed := func(repo string) bool {
-					if tid == nTenants+1 {
-						return true
-					}
-					o, ok := owner[repo]
-					return ok && tid != 0 && o == tid
-				}
-				c23Search(rec, w, q, opts, ctx, who, allowed, tid == nTenants+1)
+				c23Search(rec, w, q, opts, ctx, who, own.view(tid, tid == nTenants+1), tid == nTenants+1)
 			}
 			nt := false
 			for _, r := range w.c.Repos {
@@ -535,7 +544,54 @@ func TestVerif_C23(t *testing.T) {
 	}
 }
 
-func c23Search(rec *kit.Rec, w *world, q query.Q, opts zoekt.SearchOptions, ctx context.Context, who string, allowed func(string) bool, isSystem bool) {
+type c23Owners struct {
+	byID   map[uint32]int
+	byName map[string]map[int]bool
+}
+
+// c23View is what one caller may see.
+type c23View struct {
+	id       func(id uint32) bool   // a repository, identified by id
+	name     func(name string) bool // a repository or sub-repository name
+	dupNames bool                   // some name is owned by more than one tenant
+}
+
+func (o c23Owners) view(tid int, system bool) c23View {
+	dup := false
+	for _, ts := range o.byName {
+		if len(ts) > 1 {
+			dup = true
+		}
+	}
+	return c23View{
+		dupNames: dup,
+		id: func(id uint32) bool {
+			if system {
+				return true
+			}
+			t, ok := o.byID[id]
+			return ok && tid != 0 && t == tid
+		},
+		name: func(n string) bool {
+			if system {
+				return true
+			}
+			return tid != 0 && o.byName[n][tid]
+		},
+	}
+}
+
+func c23SubNames(r *kit.Repo) []string {
+	var out []string
+	for _, n := range r.SubRepos {
+		out = append(out, n)
+	}
+	sort.Strings(out)
+	return out
+}
+
+func c23Search(rec *kit.Rec, w *world, q query.Q, opts zoekt.SearchOptions, ctx context.Context, who string, may c23View, isSystem bool) {
+	allowed := may.name
 	wit := func(extra map[string]any) map[string]any {
 		return witness(w, q, map[string]any{"context": who, "opts": opts.String(), "extra": extra})
 	}
@@ -545,8 +601,8 @@ func c23Search(rec *kit.Rec, w *world, q query.Q, opts zoekt.SearchOptions, ctx 
 	inspect := func(api string, sr *zoekt.SearchResult) {
 		for i := range sr.Files {
 			f := &sr.Files[i]
-			if !allowed(f.Repository) {
-				leak(api+"/Files", f.Repository)
+			if !may.id(f.RepositoryID) || !allowed(f.Repository) {
+				leak(api+"/Files", fmt.Sprintf("%s (id %d)", f.Repository, f.RepositoryID))
 			}
 			if f.SubRepositoryName != "" && !allowed(f.SubRepositoryName) {
 				leak(api+"/Files.SubRepositoryName", f.SubRepositoryName)
@@ -575,11 +631,25 @@ func c23Search(rec *kit.Rec, w *world, q query.Q, opts zoekt.SearchOptions, ctx 
 		}
 		if err == nil {
 			inspect(name+".Search", sr)
-			if isSystem {
+			if isSystem && hasTypeRepo(q) && may.dupNames {
+				// type:repo is evaluated to a set of repository NAMES; with one name owned
+				// by two tenants the system context (which sees both) selects both: a
+				// matter of type:repo semantics, not of tenant visibility
+				rec.Count("system_completeness_not_judged_type_repo_with_shared_names", 1)
+			} else if isSystem {
 				// the system context sees every tenant's repositories
-				want := w.ev.Expected(q)
-				if d := ix.DiffSets(want, ix.FileSet(sr)); d != "" {
-					rec.Violation("system context misses repositories/"+name, d, wit(nil))
+				// only what is MISSING is this property's business (extra files are C01's;
+				// with one name owned by two tenants type:repo selects by name)
+				want, got := w.ev.Expected(q), ix.FileSet(sr)
+				var missing []string
+				for k, n := range want {
+					if got[k] < n {
+						missing = append(missing, strings.ReplaceAll(k, "\x00", ":"))
+					}
+				}
+				if len(missing) > 0 {
+					sort.Strings(missing)
+					rec.Violation("system context misses repositories/"+name, fmt.Sprintf("missing=%q", missing), wit(nil))
 				}
 			}
 		}
@@ -633,15 +703,13 @@ func c23Search(rec *kit.Rec, w *world, q query.Q, opts zoekt.SearchOptions, ctx 
 				continue
 			}
 			for _, e := range rl.Repos {
-				if !allowed(e.Repository.Name) {
-					leak(api+"/Repos", e.Repository.Name)
+				if !may.id(e.Repository.ID) || !allowed(e.Repository.Name) {
+					leak(api+"/Repos", fmt.Sprintf("%s (id %d, tenant %d)", e.Repository.Name, e.Repository.ID, e.Repository.TenantID))
 				}
 			}
 			for id := range rl.ReposMap {
-				for _, r := range w.c.Repos {
-					if r.ID == id && !allowed(r.Name) {
-						leak(api+"/ReposMap", r.Name)
-					}
+				if !may.id(id) {
+					leak(api+"/ReposMap", fmt.Sprintf("id %d", id))
 				}
 			}
 			if isSystem && i == 0 && field == zoekt.RepoListFieldRepos {
